@@ -1084,7 +1084,7 @@ func TestCheck(t *testing.T) {
 			name: rig.Routers[router] + "-chan", router: router,
 			authClients: []string{"web", "pub", "jwt"}, chs: []string{"none", "S256"},
 			callers: callersFor("web", "web2", "pub", "jwt", "jwt+owner", "api", "anon"),
-			maxReqs: 2, maxAlive: 2, maxPerReq: 2, maxCodes: engine.Pick(c, 2, 3), depth: engine.Pick(c, 6, 7),
+			maxReqs: engine.Pick(c, 1, 2), maxAlive: 2, maxPerReq: 2, maxCodes: engine.Pick(c, 2, 3), depth: engine.Pick(c, 6, 7),
 			chans: []string{"gtq", "allq"},
 		})
 	}
